@@ -215,7 +215,7 @@ func writeMessageFieldUnmarshaller(name string, typ FieldType, w *iohelp.ErrorWr
 		lnName := depthName("ln", depth)
 		writeLineWithTabs(w, lnName+" := iohelp.ReadUint32(r)", depth)
 		writeLineWithTabs(w, "%RECV = make("+typ.Map.goString(settings)+")", depth, name)
-		writeLineWithTabs(w, "for i := uint32(0); i < "+lnName+"; i++ {", depth, name)
+		writeLineWithTabs(w, "for i := uint32(0); i < "+lnName+" && r.Err == nil; i++ {", depth, name)
 		ln := getLineWithTabs(settings.typeUnmarshallers[typ.Map.Key], depth+1, "&"+depthName("k", depth))
 		w.SafeWrite([]byte(strings.Replace(ln, "=", ":=", 1)))
 		writeMessageFieldUnmarshaller("("+name+")["+depthName("k", depth)+"]", typ.Map.Value, w, settings, depth+1)
